@@ -70,7 +70,10 @@ Theorem C09_params_from_declaring_config : forall classes ci c excluded acc k tc
   add_task classes ci c excluded acc k = inl acc' ->
   exists ps, set_values (c_params tc) (cf_data c) = inl ps /\
              dget (full_name (c_slug tc) (cf_ns c)) acc'
-             = Some {| n_cls := k; n_cfg := ci; n_ns := cf_ns c; n_params := ps; n_inputs := [] |}.
+             = Some {| n_cls := k; n_cfg := ci; n_ns := cf_ns c;
+                       n_cfgname := match config_name c with inl n => n | inr _ => [] end;
+                       n_ctxname := match cf_ctx c with Some x => Some (cx_name x) | None => None end;
+                       n_params := ps; n_inputs := [] |}.
 Proof. exact add_task_params. Qed.
 Print Assumptions C09_params_from_declaring_config.
 
@@ -91,7 +94,7 @@ Proof. exact add_task_conflict. Qed.
 Print Assumptions C09_conflict_reported.
 
 Example C09_precedence_example :
-  let c := {| cx_ns := None; cx_data := [(lit "x", VInt 666); (lit "y", VInt 33)];
+  let c := {| cx_name := lit "ctx"; cx_ns := None; cx_data := [(lit "x", VInt 666); (lit "y", VInt 33)];
               cx_for := [(lit "ns", [(lit "x", VInt 11)]); (lit "ns2", [(lit "x", VInt 21)]); (lit "n", [(lit "y", VInt 0)])] |} in
   let data := [(lit "x", VInt 1); (lit "y", VInt 1); (lit "z", VInt 5)] in
   wf_context c /\
